@@ -546,13 +546,14 @@ pub struct Property {
 /// cargo-fuzz targets (harness/fuzz) that extend the thorough tier of a property with a
 /// coverage-guided byte-level campaign; (target, runs)
 pub fn fuzz_targets_of(property: &str) -> Vec<(&'static str, u64)> {
+    // measured on this machine (single libFuzzer process, sancov-instrumented regex compilation
+    // dominates): markdown ~5800 exec/s, cram ~500/s, escape ~365/s; the targets `expectation`
+    // (125/s), `diff` (30/s) and `render` (18/s) exist in harness/fuzz for manual use but are not
+    // part of a registered command -- the proptest engine covers those oracles 100x faster
     match property {
-        "C02" => vec![("diff", 3_000_000)],
-        "C06" => vec![("markdown", 3_000_000)],
-        "C07" => vec![("cram", 3_000_000)],
-        "C08" => vec![("expectation", 3_000_000)],
-        "C11" => vec![("escape", 5_000_000)],
-        "C19" => vec![("render", 1_000_000)],
+        "C06" => vec![("markdown", 2_000_000)],
+        "C07" => vec![("cram", 150_000)],
+        "C11" => vec![("escape", 100_000)],
         _ => vec![],
     }
 }
